@@ -11,6 +11,7 @@
 import copy
 import fcntl
 import hashlib
+import threading
 import json
 import os
 import random as _random_mod
@@ -235,7 +236,11 @@ def resolve(fn):
 
 def snapshot(v):
     if isinstance(v, _tr31.Header):
-        return ("H", enc_header(v))
+        try:
+            text = str(v)
+        except Exception as e:  # noqa: BLE001
+            text = "<" + type(e).__name__ + ">"
+        return ("H", enc_header(v), text)
     if isinstance(v, bytearray):
         return ("ba", bytes(v))
     return ("v", v)
@@ -710,11 +715,19 @@ def recheck_sample(cases, rng, limit=600):
     for c, (fn, args, stream, tok, want) in pool[:limit]:
         if any(isinstance(a, _tr31.Header) for a in args):
             continue
-        r = call_impl(fn, args, stream=stream)
+        # every other repeated call is made from a fresh worker thread: the library must not depend on the thread it was imported in
+        if n % 2:
+            box = []
+            t = threading.Thread(target=lambda: box.append(call_impl(fn, args, stream=stream)))
+            t.start()
+            t.join()
+            r = box[0]
+        else:
+            r = call_impl(fn, args, stream=stream)
         n += 1
         got = canon_impl(r, tok)
         if got != want:
-            c.impl_fail.append(f"{fn}: the same call returned `{got[:120]}` when repeated at the end of the run, `{want[:120]}` the first time (history-dependent result)")
+            c.impl_fail.append(f"{fn}: the same call returned `{got[:120]}` when repeated at the end of the run{' from a worker thread' if (n - 1) % 2 else ''}, `{want[:120]}` the first time (history- or thread-dependent result)")
         # bytes-like arguments: every third rechecked call is made twice more with its bytes arguments as (one and the same set of)
         # bytearray objects, as a caller holding key material in mutable buffers would. Where the implementation takes bytes-like
         # input at all (no TypeError), the answer must be the one given for bytes, both times, and the buffers must be left alone.
